@@ -222,7 +222,21 @@ pub fn ev_li_parse(log: &mut Log, input: &[u8]) {
         Ok(Err(e)) => (json!({"k":"err","err": li_err_kind(e)}), default_li(), json!([])),
         Err(at) => (json!({"k":"panic","at": short_at(at)}), default_li(), json!([])),
     };
-    log.ev(json!({"op":"li_parse","in": bytes(input),"out": out,"st": st,"ser": ser}));
+    // canonicalize() and FromStr are the same function seen through other doors
+    let canon = match guard(|| unic_langid_impl::canonicalize(input)) {
+        Ok(Ok(c)) => json!({"k":"ok","text": b(&c)}),
+        Ok(Err(_)) => json!({"k":"err","text": []}),
+        Err(_) => json!({"k":"panic","text": []}),
+    };
+    let fromstr_same = match std::str::from_utf8(input) {
+        Ok(s) => match (guard(|| LanguageIdentifier::from_str(s)), &r) {
+            (Ok(Ok(a)), Ok(Ok(b2))) => &a == b2,
+            (Ok(Err(a)), Ok(Err(b2))) => &a == b2,
+            _ => false,
+        },
+        Err(_) => true,
+    };
+    log.ev(json!({"op":"li_parse","in": bytes(input),"out": out,"st": st,"ser": ser,"canon": canon,"fromstr_same": fromstr_same}));
 }
 
 pub fn ev_loc_parse(log: &mut Log, input: &[u8]) -> Option<Locale> {
@@ -233,7 +247,20 @@ pub fn ev_loc_parse(log: &mut Log, input: &[u8]) -> Option<Locale> {
         Ok(Ok(v)) => (proj_loc(v), b(&v.to_string())),
         _ => (proj_loc(&Locale::default()), json!([])),
     };
-    log.ev(json!({"op":"loc_parse","in": bytes(input),"out": out,"st": st,"ser": ser}));
+    let canon = match guard(|| unic_locale_impl::canonicalize(input)) {
+        Ok(Ok(c)) => json!({"k":"ok","text": b(&c)}),
+        Ok(Err(_)) => json!({"k":"err","text": []}),
+        Err(_) => json!({"k":"panic","text": []}),
+    };
+    let fromstr_same = match std::str::from_utf8(input) {
+        Ok(s) => match (guard(|| Locale::from_str(s)), &r) {
+            (Ok(Ok(a)), Ok(Ok(b2))) => &a == b2,
+            (Ok(Err(_)), Ok(Err(_))) => true,
+            _ => false,
+        },
+        Err(_) => true,
+    };
+    log.ev(json!({"op":"loc_parse","in": bytes(input),"out": out,"st": st,"ser": ser,"canon": canon,"fromstr_same": fromstr_same}));
     match r { Ok(Ok(v)) => Some(v), _ => None }
 }
 
@@ -280,10 +307,13 @@ fn ord_name(o: std::cmp::Ordering) -> &'static str {
 }
 
 fn ev_cmp(log: &mut Log, a: &Locale, bb: &Locale) {
-    let r = guard(|| (a == bb, a.cmp(bb), bb.cmp(a), a.id.cmp(&bb.id), hash_of(a) == hash_of(bb), a.to_string() == bb.to_string()));
+    let r = guard(|| (a == bb, a.cmp(bb), bb.cmp(a), a.id.cmp(&bb.id), hash_of(a) == hash_of(bb), a.to_string() == bb.to_string(),
+                      a.id == bb.id.to_string().as_str(), a.id == bb.id, hash_of(&a.id) == hash_of(&bb.id),
+                      a.extensions == bb.extensions, a.extensions.cmp(&bb.extensions)));
     match r {
-        Ok((eq, ord, rev, lio, heq, seq)) => log.ev(json!({"op":"cmp","a": proj_loc(a),"b": proj_loc(bb),"eq": eq,"ord": ord_name(ord),
-            "rev": ord_name(rev),"li_ord": ord_name(lio),"hash_eq": heq,"str_eq": seq})),
+        Ok((eq, ord, rev, lio, heq, seq, li_eq_str, li_eq, li_heq, ext_eq, ext_ord)) => log.ev(json!({"op":"cmp","a": proj_loc(a),"b": proj_loc(bb),"eq": eq,"ord": ord_name(ord),
+            "rev": ord_name(rev),"li_ord": ord_name(lio),"hash_eq": heq,"str_eq": seq,
+            "li_eq_str": li_eq_str,"li_eq": li_eq,"li_hash_eq": li_heq,"ext_eq": ext_eq,"ext_ord": ord_name(ext_ord)})),
         Err(at) => log.ev(json!({"op":"li_parse","in": [], "out": {"k":"panic","at": short_at(&at)}, "st": default_li(), "ser": []})),
     }
 }
